@@ -125,6 +125,7 @@ RECURSIVE Query(_, _, _, _, _), QueryElems(_, _, _, _, _, _, _),
           QueryMapValues(_, _, _, _, _, _), QueryVarHead(_, _, _, _, _),
           FilterList(_, _, _, _, _, _, _), FilterMapValues(_, _, _, _, _, _, _),
           QueryKeys(_, _, _, _, _), QuerySelected(_, _, _, _, _, _),
+          QueryVKeys(_, _, _, _, _, _, _), QueryVKeyList(_, _, _, _, _, _, _),
           ResolveVar(_, _, _), ResolveRhs(_, _, _), ResolveArgs(_, _, _, _, _),
           EvalCnf(_, _, _), EvalLines(_, _, _, _, _, _, _), EvalAlts(_, _, _, _, _, _),
           EvalClause(_, _, _), EvalGac(_, _, _), EvalNamed(_, _, _), EvalBlock(_, _, _),
@@ -263,7 +264,47 @@ Query(X, q, i, cur, env) ==
              ELSE IF f.st = "PASS" THEN Query(X, q, i + 1, cur, env) ELSE Ok(<<>>)
            ELSE Ok(<<UnRes(cur, i)>>)
       [] part.p = "keys" -> QueryKeys(X, q, i, cur, env)
+      [] part.p = "vkey" ->
+           \* DOC(QUERY_PROJECTION_AND_INTERPOLATION.md): `map.%v`: the values of the variable are
+           \* the keys to look up (eval_context.rs:421-525)
+           IF ~IsMap(cur) THEN Ok(<<UnRes(cur, i)>>)
+           ELSE LET ks == ResolveVar(X, env, part.n) IN
+                IF ks.err THEN ks
+                ELSE IF i = Len(q) \/ q[i + 1].p \in {"idx", "key", "vkey"}
+                THEN QueryVKeys(X, q, i, cur, ks.r, 1, env)
+                ELSE IF q[i + 1].p = "at"
+                THEN LET n == IF q[i + 1].i >= 0 THEN q[i + 1].i ELSE 0 - q[i + 1].i IN
+                     \* the index picks one of the keys (and is then applied to the value reached)
+                     IF n < Len(ks.r) THEN QueryVKeys(X, q, i, cur, <<ks.r[n + 1]>>, 1, env)
+                     ELSE Ok(<<UnRes(cur, i)>>)
+                ELSE Err("variable-key-followed-by-unsupported-part")
       [] OTHER -> Err("unsupported-query-part")
+
+\* one key result after the other; an unresolved key leaves the query unresolved at the map
+QueryVKeys(X, q, i, cur, keys, j, env) ==
+  IF j > Len(keys) THEN Ok(<<>>)
+  ELSE
+    LET k == keys[j]
+        here == IF IsUnres(k) THEN Ok(<<UnRes(cur, i)>>)
+                ELSE IF k.v.t = "str"
+                THEN LET x == KeyIndex(cur, k.v.v) IN
+                     IF x = 0 THEN Ok(<<UnRes(cur, i)>>) ELSE Query(X, q, i + 1, cur.v[x], env)
+                ELSE IF k.v.t = "list" THEN QueryVKeyList(X, q, i, cur, k.v.v, 1, env)
+                ELSE Err("variable-key-not-a-string") IN
+    IF here.err THEN here
+    ELSE LET rest == QueryVKeys(X, q, i, cur, keys, j + 1, env) IN
+         IF rest.err THEN rest ELSE Ok(here.r \o rest.r)
+
+\* a key value that is a list of strings: every element is a key
+QueryVKeyList(X, q, i, cur, elems, j, env) ==
+  IF j > Len(elems) THEN Ok(<<>>)
+  ELSE
+    LET here == IF elems[j].t # "str" THEN Err("variable-key-not-a-string")
+                ELSE LET x == KeyIndex(cur, elems[j].v) IN
+                     IF x = 0 THEN Ok(<<UnRes(cur, i)>>) ELSE Query(X, q, i + 1, cur.v[x], env) IN
+    IF here.err THEN here
+    ELSE LET rest == QueryVKeyList(X, q, i, cur, elems, j + 1, env) IN
+         IF rest.err THEN rest ELSE Ok(here.r \o rest.r)
 
 (* ---------------------------- variables -------------------------------- *)
 
